@@ -1,6 +1,7 @@
 import Sop.Lemmas.Commit
 import Sop.Lemmas.CommitWitness
 import Sop.Lemmas.CommitPhase1
+import Sop.Lemmas.CommitSuccess
 /-!
 # C10 — no live item or node ever refers to deleted or partially written data
 
@@ -52,6 +53,21 @@ theorem C10_failed_commit_keeps_loadable (s0 : State) (w : WS) (fresh0 : List (U
     ∀ lid, (s0.view lid).isSome →
       (commit w n { s := s0, tid := tid, fault := fault, fresh := fresh0 }).2.s.view lid = s0.view lid :=
   commit_phase1_failure_keeps_views pre fault tid n r1 hf
+
+/-- **A successful commit's cleanup never deletes data a committed state references**: after `Commit` returned ok
+(whatever cleanup call failed or not), every node the transaction updated loads under its new blob id, and every
+other node that was loadable before and was not removed by this transaction still loads under the same blob id. The
+cleanup's targets (old active ids of flipped nodes, active ids of removed nodes, obsolete value blobs) are shown
+disjoint from both (`Flipped.delBlobs`, `Flipped.delRegs`). -/
+theorem C10_committed_nodes_load (s0 : State) (w : WS) (fresh0 : List (UUID × UUID)) (pre : Pre s0 w fresh0)
+    (pre2 : Pre2 s0 w fresh0) (fault : Option Fault) (tid : Tid) (n : Nat) (r2 : Run)
+    (hok : commit w n { s := s0, tid := tid, fault := fault, fresh := fresh0 } = (.ok, r2)) :
+    ∃ r1, phase1 w n { s := s0, tid := tid, fault := fault, fresh := fresh0 } = .ok ((), r1) ∧
+      (∀ h ∈ r1.reserved, h.inactive ≠ 0 → (r2.s.view h.lid).isSome) ∧
+      (∀ lid, (s0.view lid).isSome → (∀ h ∈ r1.reserved, h.lid ≠ lid) → (∀ g ∈ r1.removedH, g.lid ≠ lid) →
+        r2.s.view lid = s0.view lid) := by
+  obtain ⟨r1, a, _, c, d⟩ := commit_ok_installs pre pre2 fault tid n r2 hok
+  exact ⟨r1, a, fun h hm hz => by rw [c h hm hz]; rfl, d⟩
 
 theorem C10_premises_satisfiable : Pre Witness.s0 Witness.wSplit [(1, 9)] := Witness.pre_wSplit
 
